@@ -1,5 +1,9 @@
 import Rtsp.Props.C05
 open Rtsp.Sdp.C05
+#print axioms session_roundtrip
 #print axioms fmt_roundtrip
 #print axioms fmt_roundtrip_static
 #print axioms sdp_text_roundtrip
+#print axioms marshal_wellformed
+#print axioms sample_valid
+#print axioms validity_check_sound
